@@ -624,6 +624,7 @@ struct WriterSet {
 }
 
 impl WriterSet {
+    #[cfg(test)]
     fn handle_write(&mut self, mut req: WriteOperation) -> Result<AppendResult, WriteError> {
         self.write_operation(&mut req)
     }
